@@ -33,7 +33,7 @@ func VerifC18Events() {
 	starts, stops := 0, 0
 	seq := 0
 	for i := 0; i < k; i++ {
-		switch lib.VerifPick("op", 4) {
+		switch lib.VerifPick("op", 6) {
 		case 0: // publish with the token
 			seq++
 			err := prod.SendEvent("ev", token, seq)
@@ -45,6 +45,9 @@ func VerifC18Events() {
 				}
 			}
 		case 1: // publish without the token
+			if stranger.state == int32(gen.ProcessStateTerminated) {
+				continue
+			}
 			bad := token
 			bad.ID[0]++
 			err := stranger.SendEvent("ev", bad, 999)
@@ -84,6 +87,19 @@ func VerifC18Events() {
 			subs++
 			if subs == 1 && notify {
 				starts++
+			}
+		case 4: // somebody else tries to register the same event name
+			if stranger.state == int32(gen.ProcessStateTerminated) {
+				continue
+			}
+			_, err := stranger.RegisterEvent("ev", gen.EventOptions{})
+			lib.VerifAssert(err == gen.ErrTaken, "a second registration of the event name is refused")
+		case 5: // ... and terminates (once): the owner's event must not be affected
+			if stranger.state != int32(gen.ProcessStateTerminated) {
+				stranger.state = int32(gen.ProcessStateTerminated)
+				n.unregisterProcess(stranger, errVfReason)
+				_, still := n.events.Load(ev)
+				lib.VerifAssert(still, "the termination of a process that does not own the event leaves it registered")
 			}
 		case 3: // unsubscribe
 			c := lib.VerifPick("consumer", 2)
